@@ -24,8 +24,36 @@ def input_strategy(flat=False, w1=2, w2=2, w3=3, max_stmts=25):
 
     # sizes: a routine nested 10-22 blocks deep (ifs, switch cases, loops), an op at every level
     s_deep = st.tuples(st.lists(st.sampled_from(["if", "if", "else", "switch", "forever"]), min_size=10, max_size=22), _gaps).map(lambda t: {"stratum": 1, "prog": _deep_program(t[0]), "gaps": t[1]})
+    # ... and, rarely, one that is 60-240 blocks deep, or a chain of that many consecutive ifs / switches (which the
+    # decompiler may nest, too). The case holds the description only; materialise() builds the program.
+    s_vdeep = st.fixed_dictionaries({"stratum": st.just(1), "gaps": _gaps,
+                                     "vdeep": st.fixed_dictionaries({"shape": st.sampled_from(["chain", "chain", "nest"]), "n": st.integers(60, 240),
+                                                                     "kinds": st.lists(st.sampled_from(["if", "if", "if", "else", "switch"]), min_size=1, max_size=4)})})
     total = w1 + w2 + w3
-    return weighted((w1 * 12, s1), (w2 * 12, s2), (w3 * 12, s3), (max(1, total // 2), s_deep)) if not flat else weighted((w1, s1), (w2, s2), (w3, s3))
+    return weighted((w1 * 48, s1), (w2 * 48, s2), (w3 * 48, s3), (2 * total, s_deep), (1, s_vdeep)) if not flat else weighted((w1, s1), (w2, s2), (w3, s3))
+
+
+def _vdeep_program(d):
+    n, kinds = d["n"], d["kinds"]
+    if d["shape"] == "nest":
+        return _deep_program([kinds[i % len(kinds)] for i in range(n)])
+    cnt = [0]
+
+    def op():
+        cnt[0] += 1
+        return {"k": "op", "name": f"dp_{cnt[0]}", "args": [], "ctx": None}
+
+    body = []
+    for i in range(n):
+        k = kinds[i % len(kinds)]
+        cnt[0] += 1
+        cond = {"c": "op", "l": {"t": "const", "v": f"$D_{cnt[0] % 9}"}, "op": "==", "r": {"t": "int", "v": i}, "value_of": False}
+        if k == "switch":
+            body.append({"k": "switch", "head": {"h": "var", "v": {"t": "const", "v": f"$D_{cnt[0] % 9}"}},
+                         "cases": [{"default": False, "head": {"ch": "val", "v": {"t": "int", "v": i}}, "body": [op(), {"k": "ctl", "v": "break"}]}]})
+        else:
+            body.append({"k": "if", "not": False, "conds": [cond], "body": [op()], "elifs": [], "else": [op()] if k == "else" else None})
+    return {"imports": [], "macros": [], "routines": [{"kind": "def", "id": 0, "name": None, "target": None, "alias": False, "body": body + [{"k": "ctl", "v": "end"}]}]}
 
 
 def _deep_program(kinds):
@@ -57,6 +85,9 @@ def _deep_program(kinds):
 def materialise(case, stt):
     """-> (ssb case, program AST or None) or (None, None) when the compiler rejected the program"""
     s = case.get("stratum")
+    if "vdeep" in case:
+        stt.count("very_deep:" + case["vdeep"]["shape"])
+        case = dict(case, prog=_vdeep_program(case["vdeep"]))
     if s in (1, 2) and "prog" in case:
         # C02/C06/C09 quantify over routine sets in which every path ends in a flow-ending op:
         # give every routine a final terminator
